@@ -188,17 +188,47 @@ theorem sats_run (hdr : List HdrRec) (rate : Option Rat) (H : State) (hH : HdrFa
     · have hk' : kept rate e = false := by simpa using hk
       simp [hk']
 
-/-- **one epoch group**: the epoch record and its observation records add one row per satellite (none when the
-sampling rate decimates the epoch) -/
+/-- the lines of an epoch group after the epoch record: special records (event epochs), then satellites -/
+def blockTail (e : Epoch) : List Str := (e.special.map fun kc => rec kc.1 kc.2) ++ e.sats.map satLine
+
+theorem blockLines_eq (e : Epoch) : blockLines e = epochLine e :: blockTail e := rfl
+
+theorem runObs_append (a b : List Str) (s : State) :
+    runObs (a ++ b) s = match runObs a s with
+      | .ok s' => runObs b s'
+      | .error e => .error e := by
+  induction a generalizing s with
+  | nil => rfl
+  | cons l a ih =>
+    rw [List.cons_append, runObs_cons, runObs_cons]
+    cases parseLine obsParser (rstrip l) 0 s with
+    | error e => rfl
+    | ok s' => exact ih s'
+
+theorem specials_run (st : Style) : ∀ (sp : List (String × List Str)) (s : State), (∀ kc ∈ sp, specialOk kc = true) →
+    runObs (sp.map fun kc => styled st (rec kc.1 kc.2)) s = .ok s := by
+  intro sp
+  induction sp with
+  | nil => intro s _; rfl
+  | cons kc sp ih =>
+    intro s h
+    rw [List.map_cons, runObs_cons, rstrip_styled, special_line kc (h kc (by simp))]
+    exact ih s (fun kc' hkc' => h kc' (by simp [hkc']))
+
+theorem epoch_parts (hdr : List HdrRec) (e : Epoch) (he : e.wf hdr = true) :
+    (∀ kc ∈ e.special, specialOk kc = true) ∧ (∀ r ∈ e.sats, r.wf hdr = true) := by
+  simp only [Epoch.wf, Bool.and_eq_true] at he
+  obtain ⟨⟨⟨⟨⟨⟨⟨⟨⟨⟨⟨hsp, _⟩, _⟩, _⟩, _⟩, _⟩, _⟩, _⟩, _⟩, _⟩, _⟩, hsats⟩ := he
+  exact ⟨fun kc hkc => List.all_eq_true.mp hsp kc hkc, fun r hr => List.all_eq_true.mp hsats r hr⟩
+
+/-- **one epoch group**: the epoch record, the special records of an event epoch (ignored) and the observation
+records add one row per satellite (none when the sampling rate decimates the epoch) -/
 theorem block_run (hdr : List HdrRec) (rate : Option Rat) (H : State) (hH : HdrFacts hdr rate H) (hT : TypeFacts hdr)
     (st : Style) (e : Epoch) (he : e.wf hdr = true) (rs : List (Epoch × SatRec)) :
-    runObs ((blockLines e).map (styled st)) (mk H (dataOf hdr rate rs H.data) {}) =
+    runObs (styled st (epochLine e) :: (blockTail e).map (styled st)) (mk H (dataOf hdr rate rs H.data) {}) =
       .ok (mk H (dataOf hdr rate (rs ++ if kept rate e then e.sats.map (fun r => (e, r)) else []) H.data)
         { epoch := some (info rate e) }) := by
-  have hsats : ∀ r ∈ e.sats, r.wf hdr = true := by
-    simp only [Epoch.wf, Bool.and_eq_true] at he
-    exact fun r hr => List.all_eq_true.mp he.2 r hr
-  simp only [blockLines, List.map_cons, List.map_map, Function.comp_def]
+  obtain ⟨hsp, hsats⟩ := epoch_parts hdr e he
   rw [runObs_cons, rstrip_styled, epoch_line hdr e he]
   simp only
   have hst : ({ (mk H (dataOf hdr rate rs H.data) {}) with
@@ -208,6 +238,8 @@ theorem block_run (hdr : List HdrRec) (rate : Option Rat) (H : State) (hH : HdrF
     have hrate : (mk H (dataOf hdr rate rs H.data) {}).rate = rate := hH.hrate
     rw [hrate]; rfl
   rw [hst]
+  simp only [blockTail, List.map_append, List.map_map, Function.comp_def]
+  rw [runObs_append, specials_run st e.special _ hsp]
   exact sats_run hdr rate H hH hT st e { epoch := some (info rate e) } rfl e.sats rs hsats
 
 /-- the rows of a list of epochs -/
@@ -234,26 +266,26 @@ theorem blocks_run (hdr : List HdrRec) (rate : Option Rat) (H : State) (hH : Hdr
   | cons e eps ih =>
     intro rs hw
     have he := hw e (by simp)
-    have hsats : ∀ r ∈ e.sats, r.wf hdr = true := by
-      simp only [Epoch.wf, Bool.and_eq_true] at he
-      exact fun r hr => List.all_eq_true.mp he.2 r hr
+    obtain ⟨hsp, hsats⟩ := epoch_parts hdr e he
     have hb := block_run hdr rate H hH hT st e he rs
-    simp only [blockLines, List.map_cons] at hb
-    simp only [List.flatMap_cons, List.map_append, blockLines, List.map_cons, List.cons_append]
+    have hbl : ((e :: eps).flatMap blockLines).map (styled st) =
+        styled st (epochLine e) :: ((blockTail e).map (styled st) ++ (eps.flatMap blockLines).map (styled st)) := by
+      simp [List.flatMap_cons, blockLines_eq]
     have hmore : ((eps.flatMap blockLines).map (styled st)) = [] ∨ ∃ m ms, ((eps.flatMap blockLines).map (styled st)) = m :: ms ∧
         startsWith ['>'] (m ++ ['\n']) = true := by
       cases eps with
       | nil => left; rfl
       | cons e' eps' =>
         right
-        exact ⟨styled st (epochLine e'), List.map (styled st) (e'.sats.map satLine ++ eps'.flatMap blockLines),
-          by simp [List.flatMap_cons, blockLines], epochLine_starts st e'⟩
-    have hls : ∀ l ∈ (e.sats.map satLine).map (styled st), startsWith ['>'] (l ++ ['\n']) = false := by
+        exact ⟨styled st (epochLine e'), List.map (styled st) (blockTail e' ++ eps'.flatMap blockLines),
+          by simp [List.flatMap_cons, blockLines_eq], epochLine_starts st e'⟩
+    have hls : ∀ l ∈ (blockTail e).map (styled st), startsWith ['>'] (l ++ ['\n']) = false := by
       intro l hl
-      simp only [List.map_map, List.mem_map, Function.comp] at hl
-      obtain ⟨r, hr, rfl⟩ := hl
-      exact satLine_starts hdr st r (hsats r hr)
-    rw [readData_block _ _ _ hls hmore 0, hb]
+      simp only [blockTail, List.map_append, List.map_map, List.mem_append, List.mem_map, Function.comp] at hl
+      rcases hl with ⟨kc, hkc, rfl⟩ | ⟨r, hr, rfl⟩
+      · exact special_starts st kc (hsp kc hkc)
+      · exact satLine_starts hdr st r (hsats r hr)
+    rw [hbl, readData_block _ _ _ hls hmore 0, hb]
     simp only
     have ih' := ih (rs ++ if kept rate e then e.sats.map (fun r => (e, r)) else []) (fun e' he' => hw e' (by simp [he']))
     rw [rowsOf_cons, ← List.append_assoc]
@@ -262,7 +294,7 @@ theorem blocks_run (hdr : List HdrRec) (rate : Option Rat) (H : State) (hH : Hdr
       have hnil : eps = [] := by
         cases eps with
         | nil => rfl
-        | cons e' eps' => simp [List.flatMap_cons, blockLines] at hm
+        | cons e' eps' => simp [List.flatMap_cons, blockLines_eq] at hm
       subst hnil
       simp [rowsOf, resetCache, mk]
     | cons m ms =>
